@@ -326,6 +326,7 @@ func (vc *VC) applyContract(st *State, ci *calleeInfo, instr ssa.Instruction, si
 			vc.retag(st, tv.T)
 		}
 	}
+	vc.beforeAtomic(st, ci, instr)
 	pre := st.heap.clone()
 	// requires
 	env := vc.calleeEnv(ci, st.heap, st.heap)
@@ -508,7 +509,11 @@ func (vc *VC) atReturn(st *State, ret *ssa.Return) {
 	if !ret.Pos().IsValid() {
 		site = posString(vc.w, vc.fn.Pos())
 	}
-	env := vc.fnEnv(st, newHeap())
+	oldHeap := newHeap()
+	if vc.linearMode() && st.lp != nil {
+		oldHeap = st.lp.pre // postconditions speak about the state at the linearization point
+	}
+	env := vc.fnEnv(st, oldHeap)
 	vc.bindSelf(env)
 	sig := vc.fn.Signature
 	for i, r := range ret.Results {
@@ -536,6 +541,10 @@ func (vc *VC) atReturn(st *State, ret *ssa.Return) {
 		}
 		g := vc.trClause(env, en)
 		vc.oblige(st, g, en.Label, "ensures", site, clauseProps(en, c.Props), en.Src, "")
+	}
+	for _, inv := range c.ObjInvs {
+		g := vc.trClause(env, inv)
+		vc.oblige(st, g, "object-invariant:"+inv.Label, "ensures", site, clauseProps(inv, c.Props), inv.Src, "")
 	}
 	vc.frameCheck(st, env, c, site, "frame:")
 	if c.hasIfaceFrame && !c.ifaceAssignAll {
@@ -594,8 +603,9 @@ func (vc *VC) frameCheck(st *State, env *Env, c *Contract, site string, labelPre
 		names = append(names, n)
 	}
 	sort.Strings(names)
+	shared := vc.sharedArrays(st)
 	for _, n := range names {
-		if n == "top" || n == "Tags" || whole[n] || strings.HasPrefix(n, "IterVisited_") {
+		if n == "top" || n == "Tags" || whole[n] || strings.HasPrefix(n, "IterVisited_") || shared[n] {
 			continue
 		}
 		s := vc.arrays[n]
